@@ -269,7 +269,9 @@ def main():
     except boot.HarnessError as e:
         print(f"HARNESS-ERROR: {e}", flush=True)
         rc = 2
-    except Exception:  # noqa: BLE001
+    except SystemExit:
+        raise
+    except BaseException:  # noqa: BLE001  (incl. a stray ScenarioTimeout / KeyboardInterrupt: never exit 1 without a VIOLATION line)
         traceback.print_exc()
         print("HARNESS-ERROR: unexpected exception in the checking machinery", flush=True)
         rc = 2
